@@ -402,6 +402,8 @@ def run_batch(prop, tier, seed, workers=None):
     results_by_run = {}
     ctx_mp = mp.get_context("fork")
     stopped_early = False
+    if hasattr(mod, "batch_setup"):
+        mod.batch_setup()  # e.g. files every run of the batch reads, written once before the workers are forked
     with ProcessPoolExecutor(max_workers=workers, mp_context=ctx_mp, initializer=_worker_init) as ex:
         pending = {}
         it = iter(idx_chunks)
@@ -536,6 +538,8 @@ def run_batch(prop, tier, seed, workers=None):
     if zero:
         print(f"[{prop}] probes never hit in this batch: {zero}")
     print(f"[{prop}] exit {exit_code}", flush=True)
+    if hasattr(mod, "batch_teardown"):
+        mod.batch_teardown()
     return exit_code
 
 
